@@ -27,7 +27,7 @@ func randCase(r *rand.Rand, s string) string {
 }
 
 func htmlName(r *rand.Rand) string {
-	names := []string{"a", "b", "div", "span", "p", "h1", "ul", "li", "table", "td", "section", "my-el", "x2", "em", "custom-tag", "form", "label", "o:p", "z", "zz-y", "a", "article"}
+	names := []string{"a", "b", "div", "span", "p", "h1", "ul", "li", "table", "td", "section", "my-el", "x2", "em", "custom-tag", "form", "label", "o:p", "z", "zz-y", "a", "article", "noscript", "noscript", "template", "select", "option", "body"}
 	return Pick(r, names)
 }
 
@@ -48,7 +48,7 @@ func htmlChars(r *rand.Rand, alphabet []string, n int) string {
 	return sb.String()
 }
 
-var htmlTextAlpha = []string{"a", "b", "Z", "0", " ", "\n", "é", "日本", ".", ",", "-", "&amp;", "&#60;", ">", "/", "=", "'", "\"", "!", ";", "x y", "--", "]", "&"}
+var htmlTextAlpha = []string{"a", "b", "Z", "0", " ", "\n", "é", "日本", "\xe9", "\xfc", "\xf0\x9f", "\xc3", "\xff", ".", ",", "-", "&amp;", "&#60;", ">", "/", "=", "'", "\"", "!", ";", "x y", "--", "]", "&"}
 var htmlValAlpha = []string{"a", "b", "Z", "0", "/", ".", "_", ":", "-", "é", "#", "&amp;", ";", "(", ")", "+", "1"}
 var htmlQuotedAlpha = append([]string{" ", ">", "=", "\n", "<", "</a>", "/>", "\t"}, htmlValAlpha...)
 
@@ -168,6 +168,10 @@ func HTMLDoc(r *rand.Rand, o HTMLOpts) (doc string, toks []XTok) {
 		}
 	}
 	closeTag := func(void bool) {
+		if !void && pend != "" && r.Intn(2) == 0 {
+			// an unquoted value runs up to the '>' itself: <a href=http://x/> is a start tag whose value ends in '/'
+			pend = ""
+		}
 		sb.WriteString(pend)
 		pend = ""
 		if r.Intn(3) == 0 {
